@@ -173,6 +173,17 @@ def _piece(v):
     return (str(v.name), v.bitstart, v.bitlength, v.endianess, dict(v.extended_data))
 
 
+def _set_pre_state(enc, bitstart, encoding):
+    """Arbitrary pre-state of a reused encoder, as far as the encoder keeps such state in assignable attributes (an
+    encoder that derives its cursor from what it emitted has no such state to set: the two-call history covers it)."""
+    for attr, val in (("bitstart", bitstart), ("encoding", encoding)):
+        if hasattr(enc, attr):
+            try:
+                setattr(enc, attr, val)
+            except AttributeError:
+                pass
+
+
 def c04_case(args):
     name, skel, unroll, tier = args
     encoding = _setup()
@@ -219,8 +230,7 @@ def c04_case(args):
         impl = [i for i in fcp.impls if i.protocol == "can"][0]
         enc = make_encoder("packed", fcp, PackedEncoderContext().with_unroll_arrays(unroll))
         # arbitrary pre-state of the reused encoder (one inductive step covers every call history)
-        enc.bitstart = pre_bitstart
-        enc.encoding = [Value("stale_piece_of_an_earlier_generate", UnsignedType("u8"), 0, 8)]
+        _set_pre_state(enc, pre_bitstart, [Value("stale_piece_of_an_earlier_generate", UnsignedType("u8"), 0, 8)])
         before = [(s.name, [(f.name, id(f.type)) for f in s.fields]) for s in fcp.structs]
         out = enc.generate(impl)
         after = [(s.name, [(f.name, id(f.type)) for f in s.fields]) for s in fcp.structs]
